@@ -272,6 +272,10 @@ def op_has_argument(opcode: int, opc) -> bool:
     """
     Return True if `opcode` instruction has an operand.
     """
+    if opc.version_tuple >= (3, 13) and hasattr(opc, "hasarg"):
+        # From 3.13 ``dis`` goes by ``opcode.hasarg``: WITH_EXCEPT_START is
+        # not below HAVE_ARGUMENT, yet takes no operand.
+        return opcode in opc.hasarg
     return opcode >= opc.HAVE_ARGUMENT
 
 
